@@ -19,7 +19,20 @@ SHAPES = [[-1], [-1, 0], [-1, 0, 0], [-1, 0, 1], [-1, 0, 0, 0], [-1, 0, 0, 1],
           [-1, 0, 1, 1], [-1, 0, 1, 2]]
 AM = [{}, {'r': {'a': 'g1'}}, {'r': {'a': 'g1', 'b': 'g1'}},
       {'r': {'a': 'g1', 'b': 'g2'}}]
-RM = [{}, {'r': ('R', ['a'])}, {'r': ('R', ['b'])}]
+RM = [{}, {'r': ('R', ['a'])}, {'r': ('R', ['b'])},
+      # wave 13: rename at an inner level, onto a type that has prior
+      # information of its own; rename of the root onto a child type
+      {'a': ('r', ['b'])}, {'r': ('a', ['a'])}]
+# wave 13: unusual but legitimate labels and placements of the prior
+# information: the empty string as a group label, labels that are themselves
+# type names (crossed), the map given for an inner parent type, one label
+# under two parent types
+AM += [{'r': {'a': '', 'b': ''}}, {'r': {'a': '', 'b': 'g2'}},
+       {'r': {'a': 'b', 'b': 'a'}}, {'a': {'a': 'g1', 'b': 'g1'}},
+       {'r': {'a': 'g1'}, 'a': {'a': 'g1', 'b': 'g1'}}]
+CONFIGS = [(a, r) for a in range(4) for r in range(3)]
+EXTRA_CONFIGS = [(4, 0), (5, 0), (6, 0), (7, 0), (8, 0), (2, 3), (0, 3),
+                 (7, 4), (8, 3)]
 SEC = 10 ** 9
 BASE = 1_700_000_000   # seconds
 
@@ -223,14 +236,18 @@ def handle(task):
             spans[j] = dict(type=tl[j - 1], s=ivs[j - 1][0], e=ivs[j - 1][1],
                             parent=shape[j], children=kids[j])
         for af in (False, True):
-            for ami, am in enumerate(AM):
-                for rmi, rm in enumerate(RM):
+            for ami, rmi in CONFIGS + EXTRA_CONFIGS:
+                am, rm = AM[ami], RM[rmi]
+                if True:
                     if fine and (ami not in (0, 3) or rmi):
                         continue
                     exp = ref_sequence(spans, af, am, rm)
                     full = (k <= 4 and ami == 3 and rmi == 0
                             and task.get("perms", True))
-                    for order in orders_for(k, full):
+                    orders = orders_for(k, full)
+                    if (ami, rmi) in EXTRA_CONFIGS and k == 4:
+                        orders = orders[:1]
+                    for order in orders:
                         n += 1
                         try:
                             pv = run_impl(spans, af, am, rm, order, unit)
@@ -251,7 +268,7 @@ def handle(task):
                     outcomes.add(hash(sig))
                     if af and any(len(p) > 1 for _, p in exp.values()):
                         counters["async_merge"] += 1
-                    if exp[0][0] == 'R':
+                    if exp[0][0] in ('R', 'a'):
                         counters["rename"] += 1
                     if am and not af and any(len(p) > 1 for _, p in exp.values()):
                         counters["group"] += 1
@@ -325,7 +342,7 @@ def collect(tier, tasks, results, ctx):
         "exhaustive": True,
         "bounds": {"tier": tier, "spans": "<= 4",
                    "grid": "{0..5}" if tier == "quick" else "{0..6}",
-                   "configurations": 24,
+                   "configurations": "24 + 9 with unusual labels / inner-level maps",
                    "time_units": "grid step 1 s (all 24 configurations) and "
                    "100 ns (sync/async x {no map, two-group map}), both at "
                    "epoch 1.7e18 ns"},
